@@ -26,11 +26,13 @@ struct Exp {                       // one expected delivery
   bool any_error_name = false;     // error name not fixed by the documents
   std::vector<std::string> error_any_of;   // if non-empty: one of these
   bool ignore_body = false;        // e.g. human-readable error text
+  bool any_destination = false;    // addressee has no unique name yet: DESTINATION not fixed by the documents
   bool body_is_name_set = false;   // body = one 'as' compared as a set (ListNames)
   bool last = false;               // a reply: must arrive after every `pre` item of its group
   bool pre = false;                // a signal addressed to the requester: must precede its reply
   bool optional = false;           // documents allow it to be present or absent
   std::string what;                // for reports
+  std::string finding;             // non-empty: this item exists only because of a listed known finding; matching it counts a hit
   std::string prop;                // property whose statement this expectation comes from (C03, C04, ...)
 };
 
@@ -48,6 +50,7 @@ struct Conn {
   bool alive = false;              // bus has not processed its disconnect yet
   bool hello = false;
   bool expect_closed = false;      // model says the bus must have closed / will close it
+  std::string close_prop = "C18";  // property that demands it
   bool monitor = false;
   bool unchecked = false;          // its own incoming stream is no longer predicted (documents silent)
   unsigned uid = 0, pid = 0;
@@ -55,6 +58,7 @@ struct Conn {
   bool fdpass = false;
   std::vector<mr::Rule> rules;
   std::vector<std::string> rule_texts;
+  std::vector<bool> rule_doomed;   // names a unique name that has disconnected: can never match again
   uint64_t processed = 0;          // messages of this connection processed so far
 };
 
@@ -62,6 +66,8 @@ struct Limits {
   long max_names_per_connection = 50000;      // daemon defaults are far away; set when configured
   long max_match_rules_per_connection = 50000;
   long max_replies_per_connection = 50000;
+  long max_completed_connections = 50000;
+  long max_connections_per_user = 50000;
   int64_t reply_timeout_ms = -1;
 };
 
@@ -71,6 +77,8 @@ struct Choice {
   std::string name;                // queue name concerned
   std::string id;                  // which choice point
   std::vector<std::vector<int>> admissible;   // admissible queue orders (connection indices)
+  int conn = -1;                   // for rule-count choices: the connection whose rules are concerned
+  std::vector<size_t> rule_idx;    // rules that may have been dropped
 };
 
 class Model {
@@ -102,6 +110,8 @@ class Model {
   void disconnect(int c);
   // a white-box observation resolves an open choice: the actual queue order
   void resolve_choice(const std::string &name, const std::vector<int> &actual_order);
+  // rules naming a unique name that went away: dropped (true) or kept (false)
+  void resolve_rule_choice(int conn, const std::vector<size_t> &idx, bool dropped);
 
   // helpers used by oracles
   int owner_of(const std::string &name) const;          // -1 none; unique names resolve via uniq / symbolic
